@@ -20,6 +20,35 @@ REPO = os.environ.get("VERIF_REPO", "/repo")
 VERIF = os.path.dirname(os.path.dirname(os.path.abspath(__file__)))
 
 
+def split_top(s):
+    """split a type list at top-level commas"""
+    out, depth, cur = [], 0, ""
+    for ch in s:
+        if ch in "[(":
+            depth += 1
+        elif ch in "])":
+            depth -= 1
+        if ch == "," and depth == 0:
+            out.append(cur.strip())
+            cur = ""
+        else:
+            cur += ch
+    if cur.strip():
+        out.append(cur.strip())
+    return out
+
+
+REV = z3.Function("list_rev", ARR, INT, ARR)
+
+
+def lsel(arr, i):
+    """select on list arrays with the reversal function unfolded: rev(a, n)[i] = a[n-1-i] for 0 <= i < n"""
+    if z3.is_app(arr) and arr.decl().eq(REV):
+        a0, n = arr.children()
+        return z3.If(z3.And(i >= 0, i < n), lsel(a0, z3.simplify(n - 1 - i)), z3.Select(arr, i))
+    return z3.Select(arr, i)
+
+
 class GhostPrim(object):
     def __init__(self, name, fn):
         self.name = name
@@ -225,6 +254,29 @@ class Engine(object):
             return a is b
         self.prims["same_object"] = GhostPrim("same_object", same_object)
 
+        def list_reverse_of(ex, a, b):
+            """a is b reversed (goal position only: the universally quantified index is skolemised)"""
+            if isinstance(a, PList) and isinstance(b, PList):
+                return ex.equals(a, PList(list(reversed(b.items))), None)
+            if not ex.ctx.goal_mode:
+                raise Unsupported("list_reverse_of outside a goal")
+            i = ex.ctx.fresh("sk_i")
+            return mk_bool(z3.And(a.length == b.length,
+                                  z3.Implies(z3.And(i >= 0, i < a.length),
+                                             lsel(a.arr, i) == lsel(b.arr, b.length - 1 - i))))
+        self.prims["list_reverse_of"] = GhostPrim("list_reverse_of", list_reverse_of)
+
+        def list_same(ex, a, b):
+            if isinstance(a, (PList, tuple)) and isinstance(b, (PList, tuple)):
+                return ex.equals(PList(list(a.items if isinstance(a, PList) else a)),
+                                 PList(list(b.items if isinstance(b, PList) else b)), None)
+            if not ex.ctx.goal_mode:
+                raise Unsupported("list_same outside a goal")
+            i = ex.ctx.fresh("sk_j")
+            return mk_bool(z3.And(a.length == b.length,
+                                  z3.Implies(z3.And(i >= 0, i < a.length), lsel(a.arr, i) == lsel(b.arr, i))))
+        self.prims["list_same"] = GhostPrim("list_same", list_same)
+
         def is_list(ex, v):
             return isinstance(v, (PList, SList))
         self.prims["is_list"] = GhostPrim("is_list", is_list)
@@ -261,10 +313,10 @@ class Engine(object):
         if t == "True":
             return True
         if t.startswith("[") and t.endswith("]"):
-            inner = [x.strip() for x in t[1:-1].split(",") if x.strip()]
+            inner = split_top(t[1:-1])
             return PList([self.fresh_of_type(ex, x, "%s[%d]" % (name, i)) for i, x in enumerate(inner)])
         if t.startswith("(") and t.endswith(")"):
-            inner = [x.strip() for x in t[1:-1].split(",") if x.strip()]
+            inner = split_top(t[1:-1])
             return tuple(self.fresh_of_type(ex, x, "%s[%d]" % (name, i)) for i, x in enumerate(inner))
         if t.startswith("list[") and t.endswith("]"):
             return self.fresh_slist(ex, t[5:-1], name)
@@ -287,16 +339,33 @@ class Engine(object):
         return o
 
     def fresh_slist(self, ex, kind, name):
-        raise Unsupported("symbolic-length list parameters are not supported yet (%s)" % name)
+        """list of unknown length; elements are opaque ids (kind 'any') or ints (kind 'int')"""
+        if kind not in ("any", "int"):
+            raise Unsupported("symbolic-length list of %s (%s)" % (kind, name))
+        n = ex.ctx.fresh(name + ".len")
+        ex.ctx.assume(n >= 0)
+        return SList(n, ex.ctx.fresh(name + ".arr", ARR), kind, origin=None)
+
+    def slist_elem(self, ex, l, pos):
+        return mk_int(lsel(l.arr, pos if z3.is_expr(pos) else z3.IntVal(pos)))
+
+    def slist_copy(self, ex, l):
+        return SList(l.length, l.arr, l.kind)
+
+    def slist_method(self, ex, l, name, args, kwargs, line):
+        if name == "reverse" and not args:
+            ex.note_write(l)
+            l.arr = REV(l.arr, l.length)
+            return None
+        if name == "copy":
+            return SList(l.length, l.arr, l.kind)
+        raise Unsupported("method %s on a list of unknown length" % name)
 
     # stubs for models not built yet ------------------------------------------------
     def _unsup(what):
         def f(self, *a, **k):
             raise Unsupported(what)
         return f
-    slist_elem = _unsup("symbolic list element")
-    slist_copy = _unsup("symbolic list copy")
-    slist_method = _unsup("symbolic list method")
     list_repeat = _unsup("list repetition with symbolic count")
     list_sort = _unsup("list.sort on symbolic elements")
     int_of_str = _unsup("int() of a symbolic string")
@@ -367,7 +436,7 @@ class Engine(object):
         env = dict(env)
         self.coerce_params(ex, contract, env, fq, line)
         for (nm, pre) in self.norm_named(contract.get("requires"), "pre"):
-            g = ex.spec_bool(pre, env)
+            g = ex.spec_bool(pre, env, goal=True)
             if not z3.is_true(z3.simplify(g)):
                 ctx.emit("call-pre", "call-pre:%s/%s" % (fq.split("mingus.")[-1], nm), g, line)
         for ename, cond in (contract.get("raises") or {}).items():
@@ -435,7 +504,7 @@ class Engine(object):
     def kind_ok(self, v, t):
         if isinstance(t, (list, tuple)) and not isinstance(t, str):
             return isinstance(v, PList) and len(v.items) == len(t)
-        alts = [x.strip() for x in t.split("|")]
+        alts = [t.strip()] if t.strip()[:1] in "[(" else [x.strip() for x in t.split("|")]
         for a in alts:
             if a in ("int", "nat") and is_intlike(v) and not isinstance(v, (bool, SBool)):
                 return True
@@ -455,7 +524,7 @@ class Engine(object):
                 return True
             if a == "any":
                 return True
-            if a.startswith("[") and isinstance(v, PList):
+            if a.startswith("[") and isinstance(v, PList) and len(split_top(a[1:-1])) == len(v.items):
                 return True
             if a.startswith("(") and isinstance(v, tuple):
                 return True
@@ -577,6 +646,8 @@ class Engine(object):
         return out
 
     def snapshot(self, v):
+        if isinstance(v, SList):
+            return SList(v.length, v.arr, v.kind)
         if isinstance(v, PList):
             return tuple(self.snapshot(x) for x in v.items)
         if isinstance(v, PDict):
@@ -595,7 +666,7 @@ class Engine(object):
                 v = from_py(bind[p])
             else:
                 v = self.fresh_of_type(ex, ptypes[p], p)
-            if isinstance(v, (PList, PDict)) and v.origin is None:
+            if isinstance(v, (PList, PDict, SList)) and v.origin is None:
                 v.origin = "param:" + p
             env[p] = v
             ex.ctx.symvars[p] = v
@@ -611,7 +682,7 @@ class Engine(object):
         bad = [w for w in ctx.writes if w not in allowed and not any(w.startswith(a + ".") for a in allowed)]
         if kind == "return":
             for ename, cond in raises.items():
-                c = ex.spec_bool(cond, penv)
+                c = ex.spec_bool(cond, penv, goal=True)
                 ctx.emit("raises", "raises/%s-not-missed" % ename, z3.Not(c), None)
             cases = contract.get("cases")
             posts = contract
@@ -622,7 +693,9 @@ class Engine(object):
                     whens.append(w)
                 ctx.emit("post", "post/cases-complete", z3.Or(whens), None)
                 for i, case in enumerate(cases):
-                    self.post_for(ex, case, penv, val, whens[i], "case%d" % i, contract)
+                    # first matching case applies
+                    eff = z3.And([whens[i]] + [z3.Not(w) for w in whens[:i]])
+                    self.post_for(ex, case, penv, val, eff, "case%d" % i, contract)
             else:
                 self.post_for(ex, contract, penv, val, None, None, contract)
             if bad:
@@ -644,7 +717,7 @@ class Engine(object):
                 ctx.emit("raises", "raises/no-unexpected-exception", False, r.line,
                          note="%s escapes at line %s %s" % (name, r.line, r.note))
             else:
-                c = ex.spec_bool(matched[1], penv)
+                c = ex.spec_bool(matched[1], penv, goal=True)
                 ctx.emit("raises", "raises/%s-only-when-specified" % matched[0], c, r.line)
                 if bad:
                     ctx.emit("frame", "frame/writes-outside-modifies", False, None,
@@ -665,10 +738,7 @@ class Engine(object):
         if c.get("result_is"):
             named_posts = [("result-is", "result == (%s)" % c["result_is"])] + named_posts
         for (nm, e) in named_posts:
-            try:
-                g = ex.spec_bool(e, env)
-            except Unsupported:
-                raise
+            g = ex.spec_bool(e, env, goal=True)
             if when is not None:
                 g = z3.Implies(when, g)
             ctx.emit("post", "%s/%s" % (pre, nm), g, None)
